@@ -77,7 +77,7 @@ func (s *lifeSess) waitReqs(n int, d time.Duration) bool {
 
 func genC07(c *Ctx) {
 	stages := []string{"same-seg", "queued", "checked", "in-impl", "respond-point", "after-reply", "unknown",
-		"flush-of-flush", "multi", "pairwise", "pairwise"}
+		"flush-of-flush", "multi", "pairwise", "pairwise", "self"}
 	i := 0
 	for k := 0; k < c.scale(330, 9000) && !c.stop(); k++ {
 		i++
@@ -129,6 +129,21 @@ func genC07(c *Ctx) {
 			if gate {
 				s.waitFrames(f0+1, time.Duration(r.Intn(20))*time.Millisecond)
 				s.release(base)
+			}
+		case "self":
+			// a Tflush that names its own tag, alone or queued behind a request under that tag
+			behind := r.Intn(2) == 0
+			if behind {
+				setPlan(base, plan{gate: true})
+				s.write(T, flushFrame(s, 7, 7))
+				s.waitEntered([]int{base}, f0, 5*time.Second)
+				time.Sleep(time.Duration(r.Intn(2000)) * time.Microsecond)
+				s.release(base)
+				flushes = append(flushes, flushRec{base + 1, -1, 7})
+			} else {
+				s.write(flushFrame(s, 9, 9))
+				flushes = append(flushes, flushRec{base, -1, 9})
+				tRid = -1
 			}
 		case "queued":
 			// P (tag 7) parked in the implementation, T queued behind it under the same tag
